@@ -1,6 +1,6 @@
 #!/bin/bash
 # sensitivity sweep: every mutant of MAP.tsv against the checks that must report it
-cd /verif
+cd "$(dirname "$0")/.."
 grep -v '^#' selftest/mutants/MAP.tsv | while IFS=$'\t' read -r name checks mode; do
   [ -n "$ONLY" ] && [[ ! "$name" =~ $ONLY ]] && continue
   flag=""; [ "$mode" = "reverse" ] && flag="--reverse"
